@@ -52,9 +52,12 @@ theorem enterCall_cons (env : Env) (ctx : Ctx) (kind : Kind) (addr : Addr) (valu
         · omega
       have h1 := callWorld_cons h ctx kind addr value hv
       apply callExit_cons h
+      unfold calleeRes runPrecompile
       split
-      · exact h1
-      · exact h1.trans (hrun _ _ _ _ h1.wf)
+      · split <;> exact h1
+      · split
+        · exact h1
+        · exact h1.trans (hrun _ _ _ _ h1.wf)
 
 theorem bumpNonce_cons {w : World} (h : w.WF) (a : Addr) : Cons w (bumpNonce w a) := Cons_setNonce h a _
 
